@@ -21,6 +21,7 @@ type genBuild struct {
 	Report   *instr.GenReport
 	BuildS   float64
 	TreeHash string
+	DepSites int
 }
 
 // prepareGen copies /repo's working tree, rewrites it and builds the gensim worker and the instrumented CLI.
@@ -37,6 +38,51 @@ func prepareGen(scratch string) *genBuild {
 		die2("rewrite generator (the tree does not load/type-check?): %v", err)
 	}
 	b.Report = rep
+	// the OpenAPI loader is a dependency, but the order in which it walks its maps decides what goag gets to see
+	// (e.g. which $ref has its Value resolved): copy it, route its map iterations through the same hook
+	if os.Getenv("VERIF_NO_DEP_REWRITE") == "" {
+		if out, err := run(b.RepoCopy, goEnv(), "go", "list", "-m", "-f", "{{.Dir}}", "github.com/getkin/kin-openapi"); err == nil {
+			src := strings.TrimSpace(out)
+			dep := filepath.Join(scratch, "deps", "kin-openapi")
+			if err := copyTree(src, dep, nil); err == nil {
+				filepath.Walk(dep, func(p string, fi os.FileInfo, err error) error {
+					if err == nil {
+						os.Chmod(p, 0o755)
+					}
+					return nil
+				})
+				if sum, err := os.ReadFile(filepath.Join(repoDir, "go.sum")); err == nil {
+					os.WriteFile(filepath.Join(dep, "go.sum"), sum, 0o644)
+				}
+				// the hook is generic: lift the copy's language version to 1.20 (still per-loop loop variables)
+				if gmb, err := os.ReadFile(filepath.Join(dep, "go.mod")); err == nil {
+					lines := strings.Split(string(gmb), "\n")
+					for i, l := range lines {
+						if strings.HasPrefix(l, "go 1.") {
+							lines[i] = "go 1.20"
+						}
+					}
+					os.WriteFile(filepath.Join(dep, "go.mod"), []byte(strings.Join(lines, "\n")), 0o644)
+				}
+				next := 1
+				for _, s := range rep.Sites {
+					if s.ID >= next {
+						next = s.ID + 1
+					}
+				}
+				sites, err := instr.RewriteDependency(dep, "./openapi3", "dep:kin-openapi/", next)
+				if err != nil {
+					die2("rewrite of the copied kin-openapi loader failed: %v", err)
+				}
+				rep.Sites = append(rep.Sites, sites...)
+				b.DepSites = len(sites)
+				gm := filepath.Join(rt, "go.mod")
+				if cur, err := os.ReadFile(gm); err == nil {
+					os.WriteFile(gm, append(cur, []byte("\nreplace github.com/getkin/kin-openapi => ../../deps/kin-openapi\n")...), 0o644)
+				}
+			}
+		}
+	}
 	bin := filepath.Join(scratch, "bin")
 	os.MkdirAll(bin, 0o755)
 	b.Gensim = filepath.Join(bin, "gensim")
